@@ -460,24 +460,16 @@ func (r *run) genTx(a int, mv *model) *txinfo {
 		break
 	}
 	tx := types.NewTransaction(nonce, sink, value, gas, price, data)
-	// types.SignTx signs the chain-id-less hash whatever signer it is given, which a
-	// ChainIDSigner then recovers to a different address; sign the signer's own hash.
-	var stx *types.Transaction
-	var err error
 	if signer == types.Signer(goodSigner) && t.Chance(1, 8) {
-		stx, err = types.SignTx(types.HomesteadSigner{}, tx, keys[a]) // unprotected, accepted on any chain
-	} else {
-		var sig []byte
-		if sig, err = crypto.Sign(signer.Hash(tx).Bytes(), keys[a]); err == nil {
-			stx, err = tx.WithSignature(signer, sig)
-		}
+		signer = types.HomesteadSigner{} // unprotected, accepted on any chain
 	}
+	stx, err := types.SignTx(signer, tx, keys[a])
 	if err != nil {
 		panic("poolsim: cannot sign: " + err.Error())
 	}
 	r.nextID++
 	ti := &txinfo{id: r.nextID, tx: stx, hash: stx.Hash(), acct: a, nonce: nonce, price: price, value: value, gas: gas,
-		dataLen: len(data), kind: kind, wrongChain: signer == types.Signer(wrongSigner), gone: "never accepted"}
+		dataLen: len(data), kind: kind, wrongChain: kind == "wrong-chain", gone: "never accepted"}
 	ti.slots = (int(stx.Size()) + 32767) / 32768
 	if old, ok := r.reg[ti.hash]; ok {
 		return old
